@@ -296,6 +296,23 @@ def check_all_pairs(ctx, rule, mod, fn):
                                 for n in ast.walk(outer))
             ok = lo_ok and in_ok and len(calls) == 1 and unguarded
             why = 'outer=%s inner=%s' % (ro, ri)
+        # for i, a in enumerate(xs): for b in xs[i+1:]: f(a, b)
+        elif isinstance(outer.iter, ast.Call) and call_name(outer.iter) == 'enumerate' \
+                and [norm(a) for a in outer.iter.args] == [params[0]] and not outer.iter.keywords \
+                and isinstance(outer.target, ast.Tuple) and len(outer.target.elts) == 2 \
+                and all(isinstance(e, ast.Name) for e in outer.target.elts) \
+                and isinstance(inner.target, ast.Name) and isinstance(inner.iter, ast.Subscript) \
+                and norm(inner.iter.value) == params[0] and isinstance(inner.iter.slice, ast.Slice) \
+                and inner.iter.slice.upper is None and inner.iter.slice.step is None \
+                and inner.iter.slice.lower is not None:
+            i, a1 = outer.target.elts[0].id, outer.target.elts[1].id
+            lower = norm(inner.iter.slice.lower).replace(' ', '')
+            calls = [c for c in calls_in(inner) if [norm(a) for a in c.args] == [a1, inner.target.id]]
+            unguarded = not any(isinstance(n, (ast.If, ast.Continue, ast.Break, ast.Try))
+                                for n in ast.walk(outer))
+            ok = lower in (i + '+1', '1+' + i) and len(calls) == 1 and unguarded \
+                and any(c in [x for x in ast.walk(inner)] for c in calls)
+            why = 'enumerate / slice from %s' % lower
     ctx.ob(rule, 'all-pairs:' + fn.name, ok,
            'the all-pairs routine passes every unordered pair i<j of its list, once, '
            'unconditionally, to the pair routine ' + why, mod, fn)
